@@ -28,7 +28,8 @@ ASSUMPTIONS = ['inputs the real parser rejects are skipped; the reference re-rea
                'line continuations inside string literals are stripped by design; stand-alone empty statements in '
                'statement lists may be removed by semicolon dropping']
 BUDGET_S = {'quick': 70, 'thorough': 900}
-REQUIRED_HITS = ['identifier_boundary', 'minify_print', 'reparse', 'reference_reread', 'space_minimum_decision', 'semicolon_dropped']
+REQUIRED_HITS = ['identifier_boundary', 'minify_print', 'reparse', 'reference_reread', 'space_minimum_decision', 'semicolon_dropped',
+                 'tree_with_captured_comments']
 FLOOR = {'quick': 3000, 'thorough': 40000}
 
 
@@ -110,8 +111,18 @@ class _Quiet(object):
         pass
 
 
-def check(ctx, text, origin):
-    p = printing.prepare(ctx, text)
+COMMENTED = ['a = 1; // first\nb = 2;', 'function f(a) { // explain\n return a in b }', 'if (a) /* c */ ; else b',
+             'while (poll()) /* spin */ ;', 'function g() { for (;;) /* forever */ ; }', 'a /* x */ + /* y */ +b',
+             'return_ /* c */\n/re/.test(x)', 'do /* c */ ; while (x) // end', '/* lead */ x = 1 /* trail */',
+             'if (a) { /* only a comment */ }', 'switch (a) { /* c */ case 1: // d\n break /* e */; }',
+             'var o = { /* c */ get /* d */ x /* e */ () { return 1 } };', 'x = a /* c */ in /* d */ b;',
+             'for (var i /* c */ in /* d */ o) /* e */ ;', 'label: /* c */ for (;;) break /* d */ label;']
+
+
+def check(ctx, text, origin, with_comments=False):
+    p = printing.prepare(ctx, text, with_comments)
+    if with_comments and p is not None:
+        ctx.hit('tree_with_captured_comments')
     if p is None:
         ctx.case((text, 'skipped'), False)
         return
@@ -137,7 +148,7 @@ def check(ctx, text, origin):
         if p.es5:
             ctx.hit('reference_reread')
         nontrivial = spaced_len is not None and len(out) < spaced_len and p.ntok >= 3
-        ctx.case((text, drop), nontrivial,
+        ctx.case((text, drop, with_comments), nontrivial,
                  sample={'origin': origin, 'drop_semi': drop, 'text': text[:120], 'output': out[:140]}
                  if (nontrivial and ctx.rng.random() < 0.002) else None)
         v = judge(p.ci, out, c2, err2, ref_c, ref_err, p.es5)
@@ -146,7 +157,7 @@ def check(ctx, text, origin):
             detail += token_diagnosis(text, out)
 
             def failing(t):
-                p2 = printing.prepare(_Quiet(ctx), t)
+                p2 = printing.prepare(_Quiet(ctx), t, with_comments)
                 if p2 is None:
                     return False
                 try:
@@ -161,8 +172,10 @@ def check(ctx, text, origin):
                     small = minimise_text(text, failing, 200)
                 except Exception:
                     small = text
-            ctx.violation(mech, {'text': small, 'drop_semi': drop, 'original': text if small != text else None},
-                          '%s\ninput: %r\ndrop_semi=%s output: %r' % (detail, small[:300], drop, out[:200]))
+            ctx.violation(mech, {'text': small, 'drop_semi': drop, 'original': text if small != text else None,
+                                 'with_comments': with_comments},
+                          '%s\ninput: %r\ndrop_semi=%s comment capture %s output: %r' % (
+                              detail, small[:300], drop, with_comments, out[:200]))
             break
     if len(outs) == 2:
         n = dropped_semicolons(outs[False], outs[True])
@@ -247,9 +260,16 @@ def run(ctx):
         progs = work.Programs(ctx, ctx.per_shard(300, 8000), opts_fn=opts_fn)
         for text, meta in progs:
             check(ctx, text, meta['origin'])
+            # the tree of a parser that captures comments is a tree of the same program: minified, it reads
+            # back as the same program (the minifier has no rule that prints comments)
+            if '/*' in text or '//' in text:
+                check(ctx, text, meta['origin'], with_comments=True)
             if ctx.out_of_time():
                 break
         progs.report()
+        for k, text in enumerate(COMMENTED):
+            if k % ctx.nshards == ctx.shard:
+                check(ctx, text, 'commented', with_comments=True)
     finally:
         sd.remove()
 
@@ -323,7 +343,7 @@ def refjs_accepts(name):
 def replay(ctx, witness):
     for key in ('text', 'original'):
         if witness.get(key):
-            check(ctx, witness[key], 'replay')
+            check(ctx, witness[key], 'replay', with_comments=bool(witness.get('with_comments')))
 
 
 def canary(ctx, spec):
